@@ -144,3 +144,11 @@ package engine
 //@ ensures forall n string :: dom(result1, n) ==> result1[n] != nil
 //@ observe fns map[string]runtime.FuncCall = call
 //@ observe chks map[string]runtime.FuncCheck = check
+
+// C16: what load-time code (per-function checkers, the use() linker) may write on objects
+// that existed before: run-time state of the checking task plus the two tree annotations
+// (compiled grok, bound script) and the linker's own bookkeeping.  Never a package-level variable.
+//@ frame loadWrites = runtime.runWrites, ast.CallExpr.Grok, ast.CallExpr.PrivateData, elemsof(*ast.CallExpr),
+//@ | alltype(searchPath), alltype(param), elemsof(string), maptype(map[string]struct{}), maptype(map[string]*runtime.Script), maptype(map[string]error)
+
+//@ framesweep[C16] loadWrites dfs EngineCallRefLinkAndCheck getParamRefScript (*searchPath).Push (*searchPath).Pop
